@@ -1,4 +1,47 @@
 package rules
 
-func c01Tokenizer(c *Ctx) {}
-func c01Panics(c *Ctx)    {}
+import (
+	"strings"
+
+	"gosqlxsa/core"
+)
+
+func c01Tokenizer(c *Ctx) {
+	r, p := c.R, c.P
+	m, missing := newTokenizerModel(p)
+	if m == nil {
+		r.Fatal("anchor not found: %s", missing)
+		return
+	}
+	spec := m.spec()
+	nl := 0
+	for _, fn := range m.fns {
+		n, _, fs := checkLoops(fn, spec)
+		nl += n
+		bad := map[int][]loopFinding{}
+		for _, f := range fs {
+			bad[f.ordinal] = append(bad[f.ordinal], f)
+		}
+		for i := 1; i <= n; i++ {
+			key := core.FnName(fn) + sprintf("|loop#%d", i)
+			if len(bad[i]) == 0 {
+				r.OK("tokenizer-loop", key, p.FnPos(fn), "")
+				continue
+			}
+			var parts []string
+			for _, f := range bad[i] {
+				if f.kind == "no-progress" {
+					parts = append(parts, "a cycle near "+p.Pos(f.pos)+" can repeat without consuming a byte")
+				} else {
+					parts = append(parts, "a cycle near "+p.Pos(f.pos)+" can repeat after the cursor has reached the end of the input")
+				}
+			}
+			r.Violate("tokenizer-loop", key, p.Pos(bad[i][0].pos), strings.Join(parts, "; "))
+		}
+	}
+	r.Floor("tokenizer-loop", nl, 20, "loops in tokenizer functions")
+	r.Extra("tokenizer_loops", nl)
+	r.Assume("tokenizer progress atoms (pos.AdvanceRune, pos.Index += rune size) are only executed below len(input): each is preceded by a read of input[pos] whose bounds obligation is part of the index-bounds rule")
+}
+
+func c01Panics(c *Ctx) {}
